@@ -27,8 +27,12 @@ import (
 	"strings"
 	"time"
 
+	sdkmath "cosmossdk.io/math"
 	abci "github.com/cometbft/cometbft/abci/types"
+	codectypes "github.com/cosmos/cosmos-sdk/codec/types"
 	sdk "github.com/cosmos/cosmos-sdk/types"
+	consensustypes "github.com/palomachain/paloma/v2/x/consensus/types"
+	evmtypes "github.com/palomachain/paloma/v2/x/evm/types"
 
 	"verif/harness/chain"
 	"verif/harness/fw"
@@ -323,6 +327,18 @@ func repeatedEvaluation(w *world.BridgeWorld, rec *fw.Recorder) {
 		site{"CheckAndProcessAttestedMessages", c.Height + 1, func(ctx sdk.Context) string {
 			return fmt.Sprint(c.App.ConsensusKeeper.CheckAndProcessAttestedMessages(ctx))
 		}},
+		// the same tally on a prepared threshold boundary: on the fork, a group of snapshot validators holding
+		// EXACTLY two thirds of the shares where the stake vector allows it (else the smallest group reaching two
+		// thirds) supplies identical evidence for the first pending messages of every chain, every other
+		// validator supplies a second, different one; then the attestation pass runs
+		site{"CheckAndProcessAttestedMessages/prepared-threshold-boundary", c.Height + 1, func(ctx sdk.Context) string {
+			n := prepareBoundaryEvidence(w, ctx)
+			if n == 0 {
+				return "nothing-prepared"
+			}
+			rec.Count("boundary_tallies_prepared", 1)
+			return fmt.Sprint(n, c.App.ConsensusKeeper.CheckAndProcessAttestedMessages(ctx))
+		}},
 		site{"consensus.EndBlock@50", next(50), endBlock("consensus")},
 		site{"evm.EndBlock@300", next(300), endBlock("evm")},
 		site{"valset.EndBlock@50", next(50), endBlock("valset")},
@@ -355,6 +371,59 @@ func repeatedEvaluation(w *world.BridgeWorld, rec *fw.Recorder) {
 		}
 		rec.Distinct(fmt.Sprintf("repeat|%s|%s", s.name, first[:16]))
 	}
+}
+
+// prepareBoundaryEvidence writes, on the given (fork) context, two groups of evidence for up to three pending
+// messages per chain; returns the number of messages prepared. Deterministic in the state.
+func prepareBoundaryEvidence(w *world.BridgeWorld, ctx sdk.Context) int {
+	c := w.C
+	snap, err := c.App.ValsetKeeper.GetCurrentSnapshot(ctx)
+	if err != nil || snap == nil || len(snap.Validators) < 3 || len(snap.Validators) > 12 {
+		return 0
+	}
+	total := snap.TotalShares
+	best, bestSum := 0, sdkmath.ZeroInt()
+	for mask := 1; mask < 1<<len(snap.Validators)-1; mask++ {
+		sum := sdkmath.ZeroInt()
+		for i, v := range snap.Validators {
+			if mask&(1<<i) != 0 {
+				sum = sum.Add(v.ShareCount)
+			}
+		}
+		if sum.MulRaw(3).LT(total.MulRaw(2)) {
+			continue
+		}
+		if best == 0 || sum.LT(bestSum) {
+			best, bestSum = mask, sum
+		}
+	}
+	if best == 0 {
+		return 0
+	}
+	pa, _ := codectypes.NewAnyWithValue(&evmtypes.SmartContractExecutionErrorProof{ErrorMessage: "boundary-a"})
+	pb, _ := codectypes.NewAnyWithValue(&evmtypes.SmartContractExecutionErrorProof{ErrorMessage: "boundary-b"})
+	n := 0
+	for _, chn := range w.Chains {
+		qn := world.TurnstoneQueue(chn)
+		msgs, err := c.App.ConsensusKeeper.GetMessagesFromQueue(ctx, qn, 0)
+		if err != nil {
+			continue
+		}
+		for k, qm := range msgs {
+			if k >= 3 {
+				break
+			}
+			for i, v := range snap.Validators {
+				proof := pb
+				if best&(1<<i) != 0 {
+					proof = pa
+				}
+				_ = c.App.ConsensusKeeper.AddMessageEvidence(ctx, v.Address, &consensustypes.MsgAddEvidence{Proof: proof, MessageID: qm.GetId(), QueueTypeName: qn})
+			}
+			n++
+		}
+	}
+	return n
 }
 
 func trunc(s string) string {
@@ -601,7 +670,9 @@ func cases(tier string, seed int64) []fw.Case {
 	if tier == "thorough" {
 		n, blocks = 20, 700
 	}
-	stakes := [][]int64{{40e6, 30e6, 20e6, 10e6}, {25e6, 25e6, 25e6, 25e6}, {30e6, 20e6, 20e6, 15e6, 15e6}}
+	// the equal-stake vectors make groups of validators hold EXACTLY two thirds (2 of 3, 4 of 6; 3 of 4 after a jailing):
+	// tallies on a threshold boundary with a dissenting rest are where iteration-order dependence shows
+	stakes := [][]int64{{40e6, 30e6, 20e6, 10e6}, {30e6, 30e6, 30e6}, {30e6, 20e6, 20e6, 15e6, 15e6}, {25e6, 25e6, 25e6, 25e6}, {20e6, 20e6, 20e6, 20e6, 20e6, 20e6}}
 	for i := 0; i < n; i++ {
 		omni := c09.Params{Stakes: stakes[i%len(stakes)], NChains: 1 + i%2, Blocks: blocks, Focus: []string{"mixed", "consensus", "skyway", "jobs"}[i%4], Hostile: 35, HonestValsetAt: []int{70, 0, 120}[i%3],
 			// genesis on the evening before a month end, at a month end, or shortly before a daylight-saving switch
@@ -637,7 +708,7 @@ func init() {
 		},
 		Cases:       cases,
 		Run:         run,
-		MinCounters: []string{"blocks_compared", "twin_pairs_compared", "repeated_evaluations", "restarts", "queries", "env_names_swept", "discarded_simulations_ok", "discarded_ok/job-create+execute", "discarded_ok/denom-change-admin", "discarded_ok/gov-proposal-submit"},
+		MinCounters: []string{"blocks_compared", "twin_pairs_compared", "repeated_evaluations", "boundary_tallies_prepared", "restarts", "queries", "env_names_swept", "discarded_simulations_ok", "discarded_ok/job-create+execute", "discarded_ok/denom-change-admin", "discarded_ok/gov-proposal-submit"},
 		Workers:     5,
 		TimeoutS:    2400,
 	})
